@@ -11,8 +11,12 @@
 (* The machine of LocalSearch.tla must be able to take every logged move   *)
 (* (an improving Change / Add whose renumbering gives the logged vector),  *)
 (* and Stop must be enabled at the end (local optimum).                    *)
+(* Beyond the properties (drift): the logged moves must be EXACTLY the     *)
+(* moves of the transcribed kernels in the scan order of the code          *)
+(* (BioScanDefs!NextMove: which element moves next, change or new bucket,  *)
+(* which target), and the search must stop where the transcription stops.  *)
 (***************************************************************************)
-EXTENDS LocalSearch, Json, IOUtils
+EXTENDS BioScanDefs, Json, IOUtils
 
 VARIABLES i, verdict
 Trace == ndJsonDeserialize(IOEnv.TRACE_FILE)
@@ -32,6 +36,13 @@ Verdict(rec) ==
             /\ (m[5] = 1) = Alone(before, e)
             /\ Vec(k) = (IF m[1] = "change" THEN ChangeF(before, e, m[4]) ELSE AddF(before, e, m[4]))
         Improving(k) == Improves(Sc(Vec(k - 1)), Sc(Vec(k)), Unit)
+        Elems == [j \in 1..n |-> j]
+        Thr   == Unit \div 1000
+        From(k) == IF k = 1 THEN 1 ELSE (IF rec.moves[k - 1][2] + 1 = n THEN 1 ELSE rec.moves[k - 1][2] + 2)
+        Pred(k) == NextMove(Vec(k - 1), Elems, From(k), C, MaxB(Vec(k - 1)), Thr)
+        ScanOK(k) == LET p == Pred(k)  m == rec.moves[k] IN
+                     p[1] = m[2] + 1 /\ p[2].kind = m[1] /\ p[2].to = m[4] /\ p[2].v = Vec(k)
+        StopOK == NextMove(Vec(Len(rec.moves)), Elems, From(Len(rec.moves) + 1), C, MaxB(Vec(Len(rec.moves))), Thr)[1] = 0
         last == Vec(Len(rec.moves))
     IN IF rec.out # "ok" THEN <<"skip", rec.out>>
        ELSE IF ~DenseV(rec.start) THEN <<"skip", "start-not-dense">>
@@ -42,6 +53,8 @@ Verdict(rec) ==
             THEN <<"viol", "C04:local-search-bookkeeping">>
        ELSE IF \E k \in DOMAIN rec.moves : ~MoveOK(k) THEN <<"drift", "move-is-not-a-model-step">>
        ELSE IF \E k \in DOMAIN rec.moves : ~Improving(k) THEN <<"drift", "move-does-not-improve">>
+       ELSE IF \E k \in DOMAIN rec.moves : ~ScanOK(k) THEN <<"drift", "move-is-not-the-move-of-the-transcribed-scan">>
+       ELSE IF ~StopOK THEN <<"drift", "search-stops-before-the-transcribed-scan">>
        ELSE <<"ok", "local-search">>
 
 Init == i = 0 /\ verdict = <<"init", "">>
